@@ -297,3 +297,16 @@ func allZero(p []byte) bool {
 	}
 	return true
 }
+
+// IsSystemAccountShaped: the first 30 bytes are 0xff (the per-shard forms of the system account address).
+func IsSystemAccountShaped(a []byte) bool {
+	if len(a) < 30 {
+		return false
+	}
+	for _, b := range a[:30] {
+		if b != 0xff {
+			return false
+		}
+	}
+	return true
+}
